@@ -275,6 +275,9 @@ func runC17(ctx *Ctx) {
 		}
 	}
 	pn.run(ctx)
+	tc, lc := termsCorr(ctx, ctx.pick(3000, 100000))
+	tc.run(ctx)
+	lc.run(ctx)
 	rep.CorrCases["scan-groups"] = rep.Evaluations
 }
 
